@@ -404,7 +404,7 @@ func (g *gen) sop(inBody bool) *SOp {
 			return o
 		}
 	}
-	// receive into a location / a new variable (assigned like any value since commit 177a151: F08-7)
+	// receive into a location / a new variable (assigned like any value since commit 212dc2e: F08-7)
 	if g.chance(0.06) {
 		if g.chance(0.25) && !(inBody && len(g.e) > 9) {
 			t := ty(poolTypes[g.pick(len(poolTypes))])
@@ -425,7 +425,7 @@ func (g *gen) sop(inBody bool) *SOp {
 		return &SOp{K: "rcv", L: c.l, T: c.t.Src, R: r}
 	}
 	// two-value type assertion, holding or failing, both forms (new variables per execution, zero value on failure
-	// since commit 2fe0a18: F04-14)
+	// since commit daee744: F04-14)
 	if g.chance(0.05) {
 		t := ty(poolTypes[g.pick(len(poolTypes))])
 		r := g.rexp(t, "arg")
